@@ -109,14 +109,14 @@ TEXT = {
               "Every crash point (all journal indices and all sector-aligned tears) of thousands of seeded histories is turned into a disk image, recovered by the real Open and read back completely against the exact per-key oracle (acked state, plus all-or-none of the single in-flight call).",
               "Crash points are enumerated exhaustively within each sampled history (sampled above 400 points); histories are sampled. Process-crash model as stated in the property.", "DESIGN.md 2.3, 4/C03"),
     "C04": _t("harness", "deterministic simulation with fault injection: chains of (session, crash) epochs incl. crashes inside the recovering Open; recover-twice equality",
-              "Seeded chains of up to 4 epochs; each epoch's journal includes the recovering Open, so crashes land inside recovery and in sessions that followed a recovery; oracle accumulated over the chain.",
-              "Chains and continuation points are sampled (bias: inside recovery, torn writes). Process-crash model as stated.", "DESIGN.md 4/C04"),
+              "Seeded chains of up to 4 epochs; each epoch's journal includes the recovering Open, so crashes land inside recovery and in sessions that followed a recovery; oracle accumulated over the chain. 1 run in 5: a concurrent session (writers, compactor, background worker on simulated tickers) that starts with the recovering Open of a crashed image under the seeded scheduler, judged like C05 (linearizability + crash points inside compaction).",
+              "Chains and continuation points are sampled (bias: inside recovery, torn writes). Process-crash model as stated.", "DESIGN.md 4/C04, 12.4 (wave 6)"),
     "C06": _t("harness", "deterministic simulation with fault injection: power-loss disk model (per-file synced image + ordered pending operations), systematic and seeded prefix families at every instant",
               "Power-loss images at sampled instants of seeded histories with Sync / sync-after-write, rollover, compaction and earlier crash+recovery epochs; per key the recovered value must be the synced one or a later written one.",
               "Instants and surviving-prefix vectors are sampled (systematic families always included). Power-loss model as stated in the property (in-order prefixes, durable ordered directory operations).", "DESIGN.md 2.3, 4/C06"),
     "C09": _t("harness", "deterministic simulation with fault injection: power-loss images at every instant from the return of Close through the next Open",
-              "For seeded histories ending in Close -> Open, every FS call of the following Open (and the instant right after Close) is a power-loss point under the prefix families; recovered contents must equal the closed contents exactly.",
-              "Histories and prefix vectors sampled; instants after Close enumerated. Power-loss model as stated.", "DESIGN.md 4/C09"),
+              "For seeded histories ending in Close -> Open, every FS call of the following Open (and the instant right after Close) is a power-loss point under the prefix families; recovered contents must equal the closed contents exactly. 1 run in 4: the session before the Close is concurrent (writers, compactor and readers under the seeded scheduler), main closes it, the next Open is executed and the same power-loss families are judged at every instant from the return of Close on.",
+              "Histories, schedules and prefix vectors sampled; instants after Close enumerated. Power-loss model as stated.", "DESIGN.md 4/C09, 12.4 (wave 6)"),
     "C16": _t("harness", "seeded model-based simulation over size classes with restart; file-system seam observes that a rejected Put touches nothing",
               "Seeded exploration over boundary key/value lengths (0..65535 keys, values around sector/buffer/segment boundaries, records larger than a segment) with restarts, plus over-limit probes checked for atomic rejection at the FS seam.",
               "Input-space sampling at boundary classes; the limit-enforcement clause is a pure function of the input (DESIGN.md section 5). A full 512 MiB value only in the thorough tier.", "DESIGN.md 4/C16, 5"),
@@ -246,8 +246,8 @@ PROPS["C15"] = dict(
                     thorough=["compaction_removed_every_segment"]),
 )
 TEXT["C15"] = _t("harness", "deterministic simulation (fault-free configuration): long seeded compaction cycles on the simulated disk, directory / handle-table / size audit at the file-system seam after every call",
-                 "Seeded long-running overwrite/delete/compact/restart cycles; after every call the simulated disk's directory and handle table are audited against the allowed file set and size bounds derived from the live data; post-compaction usability (Sync, Put, Delete, Backup, Close) exercised incl. compaction that removes every segment.",
-                 "Sampling of histories and thresholds; sequential only. Real descriptors and mappings are counted through /proc/self in the runs on fs.OS / fs.OSMMap.", "DESIGN.md 4/C15, 11")
+                 "Seeded long-running overwrite/delete/compact/restart cycles; after every call the simulated disk's directory and handle table are audited against the allowed file set and size bounds derived from the live data; post-compaction usability (Sync, Put, Delete, Backup, Close) exercised incl. compaction that removes every segment. 2 runs in 7: periodic compaction by the background worker on scheduler-owned tickers/timers while a maintenance task holds the maintenance lock (ticks refused busy), then bounded liveness: two more delivered ticks (or 6000 idle steps) after the workload stops, Close, same size bound.",
+                 "Sampling of histories, schedules and thresholds. Real descriptors and mappings are counted through /proc/self in the runs on fs.OS / fs.OSMMap.", "DESIGN.md 4/C15, 11")
 
 REAL_XFS = REAL_SEQ + ["fs.Mem, fs.OS, fs.OSMMap (real files, real mmap/munmap, real flock in a run-time temporary directory under /dev/shm or $TMPDIR)"]
 PROPS["C17"] = dict(
@@ -363,3 +363,8 @@ PROPS["C02"]["must_reach"]["thorough"] = PROPS["C02"]["must_reach"]["thorough"] 
 
 PROPS["C17"]["rule"] = PROPS["C17"]["rule"].replace("executed four times: on the simulated disk, fs.Mem, fs.OS and fs.OSMMap,", "executed five times: on the simulated disk, fs.Mem, fs.OS, fs.OSMMap and on one real directory opened alternately through fs.OS and fs.OSMMap session by session (cross-file-system reopen),").replace("the four traces", "the five traces")
 PROPS["C17"]["must_reach"]["quick"] = PROPS["C17"]["must_reach"]["quick"] + ["cross_fs_reopen", "compaction_inside_scan"]
+
+# wave 6: concurrent parts of C04 / C09 / C15
+PROPS["C04"]["must_reach"]["quick"] = PROPS["C04"]["must_reach"]["quick"] + ["run_started_with_recovery", "pcrash_in_compaction_window"]
+PROPS["C09"]["must_reach"]["quick"] = PROPS["C09"]["must_reach"]["quick"] + ["power_loss_after_close_of_concurrent_session"]
+PROPS["C15"]["must_reach"]["quick"] = PROPS["C15"]["must_reach"]["quick"] + ["bg_worker_compaction_refused_busy", "tick"]
